@@ -1132,7 +1132,19 @@ func c10J(s string) any {
 	return v
 }
 
-func c10Schema(r *hx.Rng) any { return c10J(hx.Pick(r, c10SchemaPool)) }
+// references into the additionalProperties cycles (Labels, Bag, Maybe) are allowed in three documents out of ten: every
+// exchange of such a document runs in a child process, and a defect on that path costs a process per case
+var c10AllowAPCycle bool
+
+func c10Schema(r *hx.Rng) any {
+	for {
+		s := hx.Pick(r, c10SchemaPool)
+		if !c10AllowAPCycle && (strings.Contains(s, "schemas/Labels") || strings.Contains(s, "schemas/Bag") || strings.Contains(s, "schemas/Maybe")) {
+			continue
+		}
+		return c10J(s)
+	}
+}
 
 // the loader does not resolve references inside a header's content: keep those schemas reference-free
 func c10SchemaNoRef(r *hx.Rng) any {
@@ -1288,6 +1300,7 @@ func c10Operation(r *hx.Rng, tpl string) map[string]any {
 }
 
 func c10Doc(r *hx.Rng) (map[string]any, []string) {
+	c10AllowAPCycle = r.Chance(30)
 	doc := map[string]any{"openapi": "3.0.0", "info": map[string]any{"title": "t", "version": "1"}}
 	comps := c10J(c10Components).(map[string]any)
 	if r.Chance(3) {
@@ -1591,7 +1604,13 @@ func c10WalkSchema(r *hx.Rng) any {
 	if r.Chance(25) {
 		return c10Schema(r)
 	}
-	return c10J(hx.Pick(r, c10WalkPool))
+	for {
+		s := hx.Pick(r, c10WalkPool)
+		if !c10AllowAPCycle && strings.Contains(s, "schemas/Labels") {
+			continue
+		}
+		return c10J(s)
+	}
 }
 
 func c10YamlScalar(r *hx.Rng) map[string]any {
@@ -1680,7 +1699,34 @@ func c10Deep(c hx.Case) hx.Case {
 	return out
 }
 
+// every candidate of a case that runs in a child process costs a process when the defect is a fatal crash: such cases
+// get a small number of candidates per round and a budget of rounds for the whole run
+var c10CostlyShrinkRounds = 0
+
 func shrinkC10(c hx.Case) []hx.Case {
+	out := shrinkC10All(c)
+	costly := false
+	switch jstr(c, "op") {
+	case "schema":
+		costly = c10DefsCyclic(jlist(c["defs"]))
+	case "traffic":
+		doc, _ := c["doc"].(map[string]any)
+		rq, _ := c["req"].(map[string]any)
+		costly = c10DocHasRefCycle(doc) || c10HugeIndex(jstr(rq, "query"))
+	}
+	if costly {
+		c10CostlyShrinkRounds++
+		if c10CostlyShrinkRounds > 40 {
+			return nil
+		}
+		if len(out) > 8 {
+			out = out[:8]
+		}
+	}
+	return out
+}
+
+func shrinkC10All(c hx.Case) []hx.Case {
 	var out []hx.Case
 	switch jstr(c, "op") {
 	case "server":
